@@ -361,14 +361,19 @@ def pop (st : SB) : Option (SB × Nat) :=
     | none => none                    -- `cur.Elems[len(cur.Elems)-1]` with no elements panics
     | some w => some ({ st with opn := b :: rest, acc := w }, old)
 
+/-- the separator literal written before every element but the first -/
+def addSep (g : Grow) (sep : Option Part) (st : SB) (first : Bool) : SB :=
+  if first then st else
+    match sep with
+    | some p => addLit g st p
+    | none => st
+
 /-- `acc.Parts = append(acc.Parts, elem.Parts...)` for the elements of a brace, with a separator
     literal between them. -/
 def spliceElems (g : Grow) (sep : Option Part) : SB → List Nat → Bool → SB
   | st, [], _ => st
   | st, e :: es, first =>
-    let st1 := if first then st else match sep with
-      | some p => addLit g st p
-      | none => st
+    let st1 := addSep g sep st first
     let st2 := { st1 with h := appendParts g st1.h st1.acc (partsOf st1.h e) }
     spliceElems g sep st2 es false
 
@@ -380,34 +385,33 @@ def mergeSeq (g : Grow) (h : Heap) (b : Nat) : Option Heap :=
     let h1 := rest.foldl (fun h e => appendParts g (appendPart g h merged litDots) merged (partsOf h e)) h
     some (setBrace h1 b { seq := false, elems := [merged] })
 
+/-- start/end of a sequence: `some false` a number, `some true` a letter, `none` neither -/
+def seqEndKind (v : Bytes) : Option Bool :=
+  if parseIntOk v then some false
+  else if v.length = 1 && asciiLetter (v.getD 0 0) then some true
+  else none
+
+/-- the `broken` flag of a closed `{x..y[..incr]}` -/
+def seqBroken (h : Heap) (elems : List Nat) : Bool :=
+  let val (i : Nat) : Bytes := wordLit h (elems.getD i 0)
+  let k0 := seqEndKind (val 0)
+  let k1 := seqEndKind (val 1)
+  let broken0 := k0.isNone || k1.isNone
+  let broken1 := if elems.length = 3 then !parseIntOk (val 2) else elems.length > 3
+  let broken2 := k0.getD false != k1.getD false
+  broken0 || broken1 || broken2
+
+/-- `{x}` and broken sequences go back to literals: `{`, the elements separated by `sep`, `}` -/
+def unbrace (g : Grow) (st : SB) (elems : List Nat) (sep : Option Part) : SB :=
+  addLit g (spliceElems g sep (addLit g st litLeftBrace) elems true) litRightBrace
+
 /-- the `case '}'` arm after `pop`. -/
 def closeBrace (g : Grow) (st : SB) (br : Nat) : SB :=
   let bo := braceAt st.h br
-  match bo.elems with
-  | [e] =>
-    let st1 := addLit g st litLeftBrace
-    let st2 := { st1 with h := appendParts g st1.h st1.acc (partsOf st1.h e) }
-    addLit g st2 litRightBrace
-  | elems =>
-    if !bo.seq then addLit g st (.brace br)
-    else
-      let val (i : Nat) : Bytes := wordLit st.h (elems.getD i 0)
-      let kind (v : Bytes) : Option Bool :=   -- some false: number, some true: letter, none: broken
-        if parseIntOk v then some false
-        else if v.length = 1 && asciiLetter (v.getD 0 0) then some true
-        else none
-      let k0 := kind (val 0)
-      let k1 := kind (val 1)
-      let broken0 := k0.isNone || k1.isNone
-      let broken1 :=
-        if elems.length = 3 then !parseIntOk (val 2)
-        else elems.length > 3
-      let broken2 := k0.getD false != k1.getD false
-      if !(broken0 || broken1 || broken2) then addLit g st (.brace br)
-      else
-        let st1 := addLit g st litLeftBrace
-        let st2 := spliceElems g (some litDots) st1 elems true
-        addLit g st2 litRightBrace
+  if bo.elems.length = 1 then unbrace g st bo.elems none
+  else if !bo.seq then addLit g st (.brace br)
+  else if !seqBroken st.h bo.elems then addLit g st (.brace br)
+  else unbrace g st bo.elems (some litDots)
 
 /-- The byte loop over one literal: returns the state and `last`. -/
 def lexLit (g : Grow) (v : Bytes) : Nat → Nat → Nat → SB → Option (SB × Nat)
